@@ -1217,6 +1217,7 @@ func (env *Environment) ForceState(state string) {
 
 func (env *Environment) subscribeToWfState(taskman *task.Manager) {
 	go func() {
+		verifhook.Point("env.watch.start", "env", env.id.String())
 		wf := env.Workflow()
 		notify := make(chan sm.State)
 		subscriptionId := uuid.NewUUID().String()
@@ -1225,6 +1226,7 @@ func (env *Environment) subscribeToWfState(taskman *task.Manager) {
 		env.unsubscribe = make(chan struct{})
 
 		wfState := wf.GetState()
+		verifhook.Point("env.watch.subscribed", "env", env.id.String(), "state", wfState.String())
 		if wfState != sm.ERROR {
 			handlingError := false
 		WORKFLOW_STATE_LOOP:
